@@ -86,6 +86,17 @@ def run_shard(shard, acc):
             t = print_program(prog).text
             texts += [invalid.corrupt(t, rnd) for _ in range(6)]
         texts += [invalid.soup_text(rnd) for _ in range(shard["n"] * 3)]
+        # jump-carrying operations written by hand with fewer / more arguments than their opcode usually has
+        args = ["$F", "3", '"extra"', "CONST_X", "1.5", "{english='x'}", "Position<'m', 1, 2>"]
+        for name in sorted(JUMP_IDX):
+            if name in ("Jump", "Call"):
+                continue
+            for nargs in range(0, 6):
+                a = ", ".join(rnd.choice(args) for _ in range(nargs))
+                if name.startswith("Branch"):
+                    texts.append(f"def 0 {{ if ({name}({a})) {{ a(); }} elseif (not {name}({a})) {{ b(); }} while ({name}({a})) {{ c(); }} end; }}")
+                texts.append(f"//?: is-ssb-script: true\ndef 0 {{\n    {name}({a + ', ' if a else ''}@l);\n    a();\n    @l;\n    End();\n}}\n")
+                acc.count("hand_written_jump_ops_with_unusual_arity", 2)
         for t in texts:
             acc.count("hostile_texts")
             if one(acc, t, {"name": "hostile", "text": t}) is not None:
@@ -105,6 +116,14 @@ def run_shard(shard, acc):
         t = res[0]
         monitors.drain()
         one(acc, "//?: is-ssb-script: true\n" + t, {"name": name + ":ssbs", "text": t})
+        if i % 4 == 0:
+            # the same with an extra argument in front of the label of some jump-carrying ops
+            import re
+            r2 = random.Random(i)
+            t2 = re.sub(r"\((.*?)(@label_\d+)\);", lambda m: f"({m.group(1)}'extra', {m.group(2)});" if r2.random() < 0.4 else m.group(0), t)
+            if t2 != t:
+                one(acc, "//?: is-ssb-script: true\n" + t2, {"name": name + ":ssbs+extra", "text": t2})
+                acc.count("ssbscript_texts_with_extra_arguments")
 
 
 def summarize(agg, tier):
